@@ -29,6 +29,7 @@ func mix(seed uint64, idx int, salt uint64) uint64 {
 // GenProgram builds program number idx of this seed.
 func GenProgram(seed uint64, mode string, idx int) *Program {
 	g := NewG(mix(seed, idx, 1), mode == "c11")
+	g.pool = mode == "c14"
 	g.budget = 6 + g.pick(14)
 	// inputs: (small int, int, string)
 	a1, a2, a3 := "a1", "a2", "a3"
@@ -55,7 +56,7 @@ func GenProgram(seed uint64, mode string, idx int) *Program {
 	case 1:
 		prog = append(prog, Return(g.genEmittable(1)))
 	case 2:
-		if g.c11 || g.chance(30) {
+		if (g.c11 || g.chance(30)) && !g.pool { // (C14 prints the error text: no table values, whose text is an address)
 			// an error that reaches the embedding caller
 			prog = append(prog, CallS(CallN("error", g.pickE([]*E{Str("top"), Tbl(), Int(7), Nil()}), Int(int64(g.pick(3))))))
 			g.feat("error")
@@ -137,7 +138,7 @@ func (h hist) expr(e *E) {
 		if f.Op == "var" && builtinNames[f.S] {
 			h["builtin:"+f.S]++
 		}
-		if f.Op == "idx" && f.Kids[0].Op == "var" && f.Kids[1].Op == "str" && (f.Kids[0].S == "math" || f.Kids[0].S == "string" || f.Kids[0].S == "table") {
+		if f.Op == "idx" && f.Kids[0].Op == "var" && f.Kids[1].Op == "str" && (f.Kids[0].S == "math" || f.Kids[0].S == "string" || f.Kids[0].S == "table" || f.Kids[0].S == "coroutine") {
 			h["builtin:"+f.Kids[0].S+"."+f.Kids[1].S]++
 		}
 		if n := len(e.Kids); n > 2 {
@@ -234,6 +235,34 @@ func genMain(args []string) {
 	for _, k := range keys {
 		hlib.Emit("H", k, strconv.Itoa(h[k]))
 	}
+}
+
+// luafileMain: c01 luafile <mode> <n> <outfile> — n programs as Lua text (canonical rendering), separated by
+// lines `--@@`; `args()` is defined by a first line so that the programs run in any harness that provides `emit`
+// (used by C14 to compare the traces of the same programs across build tags).
+func luafileMain(args []string) {
+	if len(args) < 3 {
+		usage()
+	}
+	mode := args[0]
+	n, _ := strconv.Atoi(args[1])
+	seed := hlib.Seed()
+	var b strings.Builder
+	for idx := 0; idx < n; idx++ {
+		p := GenProgram(seed, mode, idx)
+		src := Render(p.Stmts, Style{Name: "canon"})
+		if idx > 0 {
+			b.WriteString("--@@\n")
+		}
+		a := p.Args[0]
+		fmt.Fprintf(&b, "function args() return %d, %d, %s end ", a[0].AsInt(), a[1].AsInt(), strconv.Quote(a[2].AsString()))
+		b.WriteString(src)
+	}
+	if err := os.WriteFile(args[2], []byte(b.String()), 0o644); err != nil {
+		fmt.Fprintln(os.Stderr, err)
+		os.Exit(2)
+	}
+	hlib.Emit("wrote", strconv.Itoa(n), "programs to", args[2])
 }
 
 func showMain(args []string) {
